@@ -42,6 +42,8 @@ struct RTxn {
     begin: u64,
     writes: BTreeSet<u8>,
     tid: u64,
+    /// how the transaction was aborted ("" = not aborted / explicit abort, "r{writes}" = refused commit)
+    how: String,
 }
 
 #[derive(Clone, Debug)]
@@ -110,7 +112,7 @@ impl Model for M {
             g,
             r: Ref {
                 clock,
-                txns: (0..self.ntx).map(|_| RTxn { status: RStatus::NotBegun, si: false, begin: 0, writes: BTreeSet::new(), tid: 0 }).collect(),
+                txns: (0..self.ntx).map(|_| RTxn { status: RStatus::NotBegun, si: false, begin: 0, writes: BTreeSet::new(), tid: 0, how: String::new() }).collect(),
                 last_commit: [0; 3],
                 max_commit: 0,
             },
@@ -233,6 +235,7 @@ impl Model for M {
                             outcome = "committed".into();
                         }
                         (Err(_), false) => {
+                            r.txns[*i as usize].how = format!("r{:?}", t.writes);
                             r.txns[*i as usize].status = RStatus::Aborted;
                             outcome = "refused:conflict".into();
                         }
@@ -351,7 +354,12 @@ impl Model for M {
                 RStatus::Active => format!("a{}{}{:?}", if t.si { "S" } else { "R" }, t.begin, t.writes),
                 // a finished transaction's future is the same whatever it did: refused
                 RStatus::Committed(_) => "c".to_string(),
-                RStatus::Aborted => "x".to_string(),
+                // ... except that *how* it was aborted is kept apart: a refused commit runs the
+                // validation code over its write set, and whatever that leaves behind (hidden state
+                // such as the last-commit stamps) must not be merged with an explicit abort, or a
+                // defect there is never expanded (seeded change C09: stamps written before the
+                // relationship validation fails)
+                RStatus::Aborted => format!("x{}", t.how),
             };
             s.push_str(&format!("{st}/{}|", if t.status == RStatus::NotBegun { "-" } else { retained }));
         }
